@@ -35,12 +35,13 @@ def _apply(entry, d):
         pp = os.path.join(VERIF, "selftest", "patches", entry["patch"])
         r = subprocess.run(["patch", "-p1", "-s", "-i", pp], cwd=d, stdout=subprocess.PIPE, stderr=subprocess.STDOUT, text=True)
         return r.returncode == 0
-    f = os.path.join(d, entry["file"])
-    s = open(f).read()
-    if entry["old"] not in s:
-        return False
-    s = s.replace(entry["old"], entry["new"])
-    open(f, "w").write(s)
+    for (fn, old, new) in [(entry["file"], entry["old"], entry["new"])] + list(entry.get("extra", [])):
+        f = os.path.join(d, fn)
+        s = open(f).read()
+        if old not in s:
+            return False
+        s = s.replace(old, new)
+        open(f, "w").write(s)
     return True
 
 
